@@ -81,6 +81,13 @@ def _one_replay_per_class(ctx, keep=2):
 def run(ctx):
   quick = ctx.tier == "quick"
   classes = _one_replay_per_class(ctx)
+  import time
+  t0 = [time.time()]
+  phases = ctx.notes.setdefault("phase_wall_s", {})
+
+  def lap(name):
+    phases[name] = round(time.time() - t0[0], 1)
+    t0[0] = time.time()
   ctx.rule = ("behaviours exported by TLC from Rendezvous.tla (edge cover: shortest path to every "
               "abstract state + each outgoing transition, per catalog; plus -simulate runs over 5 "
               "components / 5 waiters) replayed on a fresh real POXCore each, callback log / registry / "
@@ -116,6 +123,7 @@ def run(ctx):
       ctx.add_model("Rendezvous catalog %s" % c, r)
     exported = [(c, f.result()) for c, f in f_ex]
     sims = [(c, f.result()) for c, f in f_sim]
+  lap("tlc_model_checking_and_export")
   # 2. spec -> code: every transition of the abstract graphs
   for c, (cat, behs) in exported:           # literal samples worth reading first
     best = max(behs, key=lambda b: (sum(len(lg) for st in b for lg in st["exp"]["logs"][:1]), -len(b)))
@@ -134,12 +142,14 @@ def run(ctx):
   st = core.replay(ctx, ADAPTER, behs if not quick else behs[::4],
                    params=dict(catalog=cat, style=(ctx.seed + 3) % 24, noisy=True), nontrivial=nontrivial)
   ctx.notes["replay_%s_failing_listener" % exported[0][0]] = dict(**st)
+  lap("replay_edges")
   # 3. deeper random behaviours over 5 components / 5 waiters
   for i, (c, (cat, behs)) in enumerate(sims):
     cats[c] = cat
     st = core.replay(ctx, ADAPTER, behs, params=dict(catalog=cat, style=(ctx.seed + 11 + i) % 24),
                      nontrivial=nontrivial, chunk=25)
     ctx.notes["replay_sim_%s" % c] = dict(behaviours=len(behs), depth=14, **st)
+  lap("replay_simulated")
   # 4. through pox.boot.boot(): start-up order given by the command line
   nboot = 150 if quick else 1500
   rnd = random.Random(ctx.seed + 77)
@@ -149,6 +159,7 @@ def run(ctx):
     st = core.replay(ctx, BOOT_ADAPTER, sample, params=dict(catalog=cat, style=(ctx.seed + 2) % 24),
                      nontrivial=nontrivial, chunk=25)
     ctx.notes["replay_boot_%s" % c] = dict(behaviours=len(sample), **st)
+  lap("replay_through_boot")
   # 5. code -> spec
   ntr = 150 if quick else 2500
   for i, c in enumerate(["T", "U"]):
@@ -188,6 +199,7 @@ def run(ctx):
     ctx.notes["trace_validation_%s" % c] = dict(
         traces=len(traces), events=sum(len(t) for t in traces), rejected=nrej,
         negative_controls_rejected=[w for _, w in valid])
+  lap("trace_validation")
   ctx.exhaustive = True
   if classes:
     ctx.notes["failure_classes"] = [dict(n=n, cls=core.json.loads(k)) for k, n in
